@@ -334,7 +334,8 @@ def compare(res, footprint=None):
         if not h and hyp:
             hyp = False
             out["hyp_broken_at"] = k
-        if footprint is not None and op[0] not in footprint:
+        # (the raw partition dump is everybody's business: the lock-step invariant behind C01/C05-C09/C20)
+        if footprint is not None and op[0] not in footprint and op[0] != "rawdump":
             continue
         if obs != mobs:
             out["corr"].append(dict(k=k, op=" ".join(op), impl=obs, model=mobs))
